@@ -946,7 +946,7 @@ Proof.
     assert (Hwf1 : m_wf m1 = true) by (apply (mid_rel_wf _ m m1 HrelI); [intros; apply lnl_put_skel | exact Hwf]).
     assert (Hc1 : forall l, In l idsC -> ml_leaf m1 l = ml_leaf m l).
     { intros l Hl. rewrite (mr_leaf _ _ _ HrelI l). destruct (ml_leaf m l) as [u|]; [|reflexivity]. cbn [option_map].
-      rewrite (proj2 (inb_false l idsI)) at 1 || idtac. unfold lnl_put.
+      unfold lnl_put.
       assert (Hn : inb l idsI = false) by (apply inb_false; unfold idsI, idsC in *; cbn in *; intuition congruence).
       rewrite Hn. reflexivity. }
     assert (HallC : forall l u, In l idsC -> ml_leaf m1 l = Some u -> u_names_ok u = true /\ u_L u = u_L (ext_c m)).
@@ -1396,4 +1396,528 @@ Theorem midline_tumor_preserved : C11_midline_tumor_preserved_stmt.
 Proof.
   intros m a kw Hwf Hc Hndi Hret m'. subst m'. cbn [m_call touches_dists] in *.
   destruct (m_tumor_strong m a kw Hwf Hc Hndi Hret) as (H1 & H2 & H3 & _). split; [exact H1|]. split; [exact H2|]. intros _. exact H3.
+Qed.
+
+(** * Midline.set_spread_params *)
+Lemma m_spread_strong m a kw : m_wf m = true -> m_consistent m -> (ml_central m <> None -> no_double_ipsi kw) ->
+  snd (m_set_spread_params m a kw) <> None ->
+  m_wf (fst (m_set_spread_params m a kw)) = true /\ m_shared (fst (m_set_spread_params m a kw)) /\
+  m_same_config (fst (m_set_spread_params m a kw)) /\ m_frame m (fst (m_set_spread_params m a kw)).
+Proof.
+  intros Hwf Hc Hndi Hret.
+  unfold m_set_spread_params in *. destruct (andthen_ok _ _ Hret) as (a1 & Ha1 & Heq). rewrite Heq in *.
+  assert (HretT : snd (m_set_tumor_spread_params m a kw) <> None) by (rewrite Ha1; discriminate).
+  destruct (m_tumor_strong m a kw Hwf Hc Hndi HretT) as (Hwf1 & Hsh1 & Hcf1 & Hfr1).
+  destruct (m_lnl_strong _ a1 kw Hwf1 (conj Hsh1 Hcf1) Hret) as (H1 & H2 & H3 & Hfr2).
+  split; [exact H1|]. split; [exact H2|]. split; [exact H3|]. apply (m_frame_trans _ _ _ Hfr1 Hfr2).
+Qed.
+Theorem midline_spread_preserved : C11_midline_spread_preserved_stmt.
+Proof.
+  intros m a kw Hwf Hc Hndi Hret m'. subst m'. cbn [m_call touches_dists] in *.
+  destruct (m_spread_strong m a kw Hwf Hc Hndi Hret) as (H1 & H2 & H3 & _). split; [exact H1|]. split; [exact H2|]. intros _. exact H3.
+Qed.
+
+(** * Midline.set_distribution_params *)
+(** one bilateral child: every leaf keeps its spread parameters; when both leaves start
+    from the configuration of [u0] and see the plain keywords, both end with the same
+    distributions, determined by [u0] and the call alone *)
+Lemma b_dist_child b a kwb : b_names_ok b = true -> snd (b_set_distribution_params b a kwb) <> None ->
+  let b' := fst (b_set_distribution_params b a kwb) in
+  b_names_ok b' = true /\ b_symT b' = b_symT b /\
+  u_T (b_ipsi b') = u_T (b_ipsi b) /\ u_T (b_contra b') = u_T (b_contra b) /\
+  u_L (b_ipsi b') = u_L (b_ipsi b) /\ u_L (b_contra b') = u_L (b_contra b) /\
+  (forall u0 kw, same_config (b_ipsi b) u0 -> same_config (b_contra b) u0 ->
+     (forall kwl k, In kwl (b_dist_leaf_kwargs kwb) -> In k (map fst (u_dist_items u0)) -> u_lk kwl k = u_lk kw k) ->
+     exists ds', dists_put (u_maxt u0) (u_dists u0) (plan (u_lk kw) (u_dist_items u0) a) = Some ds' /\
+       same_config (b_ipsi b') (u_with_dists u0 ds') /\ same_config (b_contra b') (u_with_dists u0 ds')).
+Proof.
+  intros Hok Hret. destruct (b_dist_facts b a kwb Hok Hret) as (H1 & H2 & H3 & H4 & H5 & H6 & H7 & _).
+  cbv zeta. split; [exact H1|]. split; [exact H6|]. split; [exact H2|]. split; [exact H3|]. split; [exact H4|]. split; [exact H5|].
+  intros u0 kw (Mi & Di & Ti) (Mc & Dc & Tc) Hag.
+  pose proof (b_dist_step b a kwb Hok) as Hs.
+  unfold b_dist_leaf_kwargs in Hag. destruct (side_kwargs kwb) as [ikw ckw] eqn:Hsk.
+  destruct (side_kwargs_lk kwb ikw ckw Hsk) as [Hlki Hlkc].
+  assert (Pi : plan (side_lk "ipsi" kwb) (u_dist_items (b_ipsi b)) a = plan (u_lk kw) (u_dist_items u0) a).
+  { unfold u_dist_items. rewrite Di. apply plan_ext. intros k Hk. rewrite <- Hlki. apply Hag; [cbn; tauto | exact Hk]. }
+  assert (Pc : plan (side_lk "contra" kwb) (u_dist_items (b_contra b)) a = plan (u_lk kw) (u_dist_items u0) a).
+  { unfold u_dist_items. rewrite Dc. apply plan_ext. intros k Hk. rewrite <- Hlkc. apply Hag; [cbn; tauto | exact Hk]. }
+  rewrite Pi, Pc, Di, Dc, Ti, Tc in Hs.
+  destruct (dists_put (u_maxt u0) (u_dists u0) (plan (u_lk kw) (u_dist_items u0) a)) as [ds'|]; [|contradiction].
+  exists ds'. split; [reflexivity|]. rewrite Hs. cbn [fst b_with b_ipsi b_contra]. split; repeat split; assumption.
+Qed.
+
+Lemma mid_rel_with_ext m e' :
+  mid_rel (fun l v => match l with LExtIpsi => b_ipsi e' | LExtContra => b_contra e' | _ => v end) m (ml_with_ext m e').
+Proof. split; try reflexivity. intros l. destruct l; cbn; try reflexivity; destruct (ml_central m); reflexivity. Qed.
+Lemma mid_rel_with_noext m n' :
+  mid_rel (fun l v => match l with LNoextIpsi => b_ipsi n' | LNoextContra => b_contra n' | _ => v end) m (ml_with_noext m n').
+Proof. split; try reflexivity. intros l. destruct l; cbn; try reflexivity; destruct (ml_central m); reflexivity. Qed.
+
+Lemma in_children_kwargs m kw split glob child :
+  unflatten_and_split kw (m_children m) = (split, glob) -> In child (m_children m) ->
+  forall kwl, In kwl (b_dist_leaf_kwargs (obj_kwargs child split glob)) -> In kwl (m_dist_leaf_kwargs m kw).
+Proof.
+  intros Hu Hc kwl Hk. unfold m_dist_leaf_kwargs. rewrite Hu. apply in_flat_map. exists child. split; assumption.
+Qed.
+
+Lemma m_dist_strong m a kw : m_wf m = true -> m_consistent m ->
+  snd (m_set_distribution_params m a kw) <> None ->
+  m_wf (fst (m_set_distribution_params m a kw)) = true /\ m_shared (fst (m_set_distribution_params m a kw)) /\
+  (m_dist_kw_agree m kw -> m_same_config (fst (m_set_distribution_params m a kw))).
+Proof.
+  intros Hwf [Hsh Hcf] Hret.
+  destruct (shared_ids m Hsh) as (HidT & HidLi & HidLc).
+  pose proof Hsh as (_ & _ & Hmixm & _ & _ & HsymL).
+  destruct (wf_parts m Hwf) as (Hoke & Hokn & Hokc).
+  assert (Hokk : forall k, ml_unknown m = Some k -> b_names_ok k = true).
+  { intros k Ek. unfold m_wf in Hwf. rewrite !andb_true_iff in Hwf. destruct Hwf as [_ Hk]. rewrite Ek in Hk. exact Hk. }
+  revert Hret. unfold m_set_distribution_params. fold (m_children m).
+  destruct (unflatten_and_split kw (m_children m)) as [split glob] eqn:Hu.
+  destruct (b_set_distribution_params (ml_ext m) a (obj_kwargs "ext" split glob)) as [e' o1] eqn:E1.
+  destruct o1 as [r1|]; [|intros C; contradiction].
+  change (ml_noext (ml_with_ext m e')) with (ml_noext m).
+  destruct (b_set_distribution_params (ml_noext m) a (obj_kwargs "noext" split glob)) as [n' o2] eqn:E2.
+  destruct o2 as [r2|]; [|intros C; contradiction].
+  change (ml_central (ml_with_noext (ml_with_ext m e') n')) with (ml_central m).
+  destruct (b_dist_child (ml_ext m) a (obj_kwargs "ext" split glob) Hoke) as (Ne & Se & Tei & Tec & Lei & Lec & Ce); [rewrite E1; discriminate|].
+  destruct (b_dist_child (ml_noext m) a (obj_kwargs "noext" split glob) Hokn) as (Nn & Sn & Tni & Tnc & Lni & Lnc & Cn); [rewrite E2; discriminate|].
+  rewrite E1 in Ne, Se, Tei, Tec, Lei, Lec, Ce. rewrite E2 in Nn, Sn, Tni, Tnc, Lni, Lnc, Cn. cbn [fst] in *.
+  set (m2 := ml_with_noext (ml_with_ext m e') n').
+  pose proof (mid_rel_trans _ _ _ _ _ (mid_rel_with_ext m e') (mid_rel_with_noext (ml_with_ext m e') n')) as Hrel2. cbv beta in Hrel2. fold m2 in Hrel2.
+  (* the central child *)
+  assert (S3 : forall m3 o3, (match ml_central m with
+                              | None => (m2, Some r2)
+                              | Some c => let '(c', o) := b_set_distribution_params c a (obj_kwargs "central" split glob) in (ml_with_central m2 c', o)
+                              end) = (m3, o3) -> o3 <> None ->
+           exists tr, mid_rel tr m m3 /\ ml_mixing m3 = ml_mixing m /\ ml_unknown m3 = ml_unknown m /\
+             (forall l u, ml_leaf m l = Some u -> u_T (tr l u) = u_T u /\ u_L (tr l u) = u_L u) /\
+             b_names_ok (ml_ext m3) = true /\ b_names_ok (ml_noext m3) = true /\
+             opt_ok (fun c => b_names_ok c && b_symT c) (ml_central m3) = true /\
+             (m_dist_kw_agree m kw -> exists ds', dists_put (u_maxt (ext_i m)) (u_dists (ext_i m)) (plan (u_lk kw) (u_dist_items (ext_i m)) a) = Some ds' /\
+                forall l u, ml_leaf m3 l = Some u -> same_config u (u_with_dists (ext_i m) ds'))).
+  { intros m3 o3 E3 Ho3.
+    assert (Hag_of : m_dist_kw_agree m kw -> forall child, In child (m_children m) ->
+              forall kwl k, In kwl (b_dist_leaf_kwargs (obj_kwargs child split glob)) -> In k (map fst (u_dist_items (ext_i m))) -> u_lk kwl k = u_lk kw k).
+    { intros Hag child Hch kwl k Hkwl Hk. apply Hag; [apply (in_children_kwargs m kw split glob child Hu Hch kwl Hkwl) | exact Hk]. }
+    assert (HcfL : forall l u, ml_leaf m l = Some u -> same_config u (ext_i m)).
+    { intros l u E. apply Hcf, in_all_leaves. left. exists l. exact E. }
+    destruct (ml_central m) as [c|] eqn:Ec.
+    - destruct (b_set_distribution_params c a (obj_kwargs "central" split glob)) as [c' o] eqn:Ec'. injection E3 as <- <-.
+      destruct (Hokc c eq_refl) as [Hcok HcT].
+      destruct (b_dist_child c a (obj_kwargs "central" split glob) Hcok) as (Nc & Sc & Tci & Tcc & Lci & Lcc & Cc); [rewrite Ec'; exact Ho3|].
+      rewrite Ec' in Nc, Sc, Tci, Tcc, Lci, Lcc, Cc. cbn [fst] in *.
+      assert (Ec2 : ml_central m2 = Some c) by exact Ec.
+      pose proof (mid_rel_trans _ _ _ _ _ Hrel2 (mid_rel_with_central m2 c c' Ec2 Sc)) as Hrel3. cbv beta in Hrel3.
+      eexists. split; [exact Hrel3|]. split; [reflexivity|]. split; [reflexivity|]. split; [|split; [exact Ne|split; [exact Nn|split]]].
+      + intros l u E. destruct l; cbn [ml_leaf] in E; rewrite ?Ec in E; injection E as <-; split; assumption.
+      + cbn [ml_with_central ml_with_models ml_central opt_ok]. rewrite Nc, Sc, HcT. reflexivity.
+      + intros Hag.
+        destruct (Ce (ext_i m) kw (same_config_refl _) (HcfL LExtContra _ eq_refl)) as (ds' & Ed & Ce1 & Ce2);
+          [apply (Hag_of Hag "ext"); unfold m_children; cbn; tauto|].
+        destruct (Cn (ext_i m) kw (HcfL LNoextIpsi _ eq_refl) (HcfL LNoextContra _ eq_refl)) as (ds2 & Ed2 & Cn1 & Cn2);
+          [apply (Hag_of Hag "noext"); unfold m_children; cbn; tauto|].
+        destruct (Cc (ext_i m) kw) as (ds3 & Ed3 & Cc1 & Cc2);
+          [apply (HcfL LCentralIpsi); cbn; rewrite Ec; reflexivity | apply (HcfL LCentralContra); cbn; rewrite Ec; reflexivity
+           | apply (Hag_of Hag "central"); unfold m_children; rewrite Ec; cbn; tauto|].
+        rewrite Ed in Ed2, Ed3. injection Ed2 as <-. injection Ed3 as <-.
+        exists ds'. split; [exact Ed|]. intros l u E. destruct l; cbn in E; rewrite ?Ec in E; injection E as <-; assumption.
+    - injection E3 as <- <-.
+      eexists. split; [exact Hrel2|]. split; [reflexivity|]. split; [reflexivity|]. split; [|split; [exact Ne|split; [exact Nn|split]]].
+      + intros l u E. destruct l; cbn [ml_leaf] in E; rewrite ?Ec in E; try discriminate; injection E as <-; split; assumption.
+      + unfold m2. cbn [ml_with_noext ml_with_ext ml_with_models ml_central]. rewrite Ec. reflexivity.
+      + intros Hag.
+        destruct (Ce (ext_i m) kw (same_config_refl _) (HcfL LExtContra _ eq_refl)) as (ds' & Ed & Ce1 & Ce2);
+          [apply (Hag_of Hag "ext"); unfold m_children; cbn; tauto|].
+        destruct (Cn (ext_i m) kw (HcfL LNoextIpsi _ eq_refl) (HcfL LNoextContra _ eq_refl)) as (ds2 & Ed2 & Cn1 & Cn2);
+          [apply (Hag_of Hag "noext"); unfold m_children; cbn; tauto|].
+        rewrite Ed in Ed2. injection Ed2 as <-.
+        exists ds'. split; [exact Ed|]. intros l u E. destruct l; cbn in E; rewrite ?Ec in E; try discriminate; injection E as <-; assumption. }
+  match goal with |- context [let '(m3, o3) := ?X in _] => destruct X as [m3 o3] eqn:E3 end.
+  destruct o3 as [r3|]; [|intros C; contradiction].
+  destruct (S3 m3 (Some r3) eq_refl ltac:(discriminate)) as (tr & Hrel3 & Hmix3 & Hunk3 & HTL & Ne3 & Nn3 & Nc3 & Hcfg3).
+  clear S3 E3.
+  assert (Hsh3 : m_shared m3).
+  { apply (mid_rel_shared _ m m3 Hrel3 (u_T (ext_i m)) (u_L (ext_i m)) (u_L (ext_c m))).
+    - intros l u Hl Eu. rewrite (proj1 (HTL l u Eu)). apply (HidT l u Hl Eu).
+    - intros mix Hm. rewrite (proj1 (HTL LExtContra (ext_c m) eq_refl)), (proj1 (HTL LNoextContra (noext_c m) eq_refl)). apply Hmixm. rewrite <- Hmix3. exact Hm.
+    - intros l u Hl Eu. rewrite (proj2 (HTL l u Eu)). apply (HidLi l u Hl Eu).
+    - intros l u Hl Eu. rewrite (proj2 (HTL l u Eu)). apply (HidLc l u Hl Eu).
+    - exact HsymL. }
+  assert (Hcfg_all : forall mfin ds', (forall u, In u (all_leaves mfin) -> same_config u (u_with_dists (ext_i m) ds')) -> m_same_config mfin).
+  { intros mfin ds' H u Hin. eapply same_config_trans; [apply H, Hin|]. apply same_config_sym, H, in_all_leaves. left. exists LExtIpsi. reflexivity. }
+  rewrite Hunk3. destruct (ml_unknown m) as [k|] eqn:Ek.
+  - destruct (b_set_distribution_params k a (obj_kwargs "unknown" split glob)) as [k' o4] eqn:E4. cbn [fst snd].
+    destruct o4 as [r4|]; [|intros C; contradiction]. intros _.
+    destruct (b_dist_child k a (obj_kwargs "unknown" split glob) (Hokk k eq_refl)) as (Nk & _ & _ & _ & _ & _ & Ck); [rewrite E4; discriminate|].
+    rewrite E4 in Nk, Ck. cbn [fst] in *.
+    split; [|split].
+    + unfold m_wf. cbn [ml_with_unknown ml_with_models ml_ext ml_noext ml_central ml_unknown opt_ok]. rewrite Ne3, Nn3, Nc3, Nk. reflexivity.
+    + exact Hsh3.
+    + intros Hag. destruct (Hcfg3 Hag) as (ds' & Ed & Hl3).
+      destruct (Ck (ext_i m) kw) as (ds4 & Ed4 & Ck1 & Ck2).
+      * apply Hcf, in_all_leaves. right. exists k. tauto.
+      * apply Hcf, in_all_leaves. right. exists k. tauto.
+      * intros kwl k0 Hkwl Hk0. apply Hag; [|exact Hk0].
+        apply (in_children_kwargs m kw split glob "unknown" Hu); [unfold m_children; rewrite Ek; rewrite !in_app_iff; cbn; tauto | exact Hkwl].
+      * rewrite Ed in Ed4. injection Ed4 as <-. apply (Hcfg_all _ ds'). intros u Hin. apply in_all_leaves in Hin.
+        destruct Hin as [(l & E)|(k2 & E & H)].
+        -- apply (Hl3 l u). rewrite <- E. destruct l; cbn; try reflexivity; destruct (ml_central m3); reflexivity.
+        -- cbn in E. injection E as <-. destruct H as [->| ->]; assumption.
+  - cbn [fst snd]. intros _. split; [|split].
+    + unfold m_wf. rewrite Ne3, Nn3, Nc3, Hunk3. reflexivity.
+    + exact Hsh3.
+    + intros Hag. destruct (Hcfg3 Hag) as (ds' & Ed & Hl3). apply (Hcfg_all _ ds'). intros u Hin.
+      apply in_all_leaves in Hin. destruct Hin as [(l & E)|(k2 & E & H)]; [apply (Hl3 l u E)|]. rewrite Hunk3 in E. discriminate.
+Qed.
+Theorem midline_dist_preserved : C11_midline_dist_preserved_stmt.
+Proof.
+  intros m a kw Hwf Hc _ Hret m'. subst m'. cbn [m_call touches_dists] in *.
+  destruct (m_dist_strong m a kw Hwf Hc Hret) as (H1 & H2 & H3). split; [exact H1|]. split; [exact H2|].
+  intros [C|Hag]; [discriminate | exact (H3 Hag)].
+Qed.
+
+(** * Midline.set_params *)
+Lemma m_dist_kw_agree_frame m m' kw : m_frame m m' -> m_dist_kw_agree m kw -> m_dist_kw_agree m' kw.
+Proof.
+  intros [Hch (_ & Hd & _)] Hag kwl k Hkwl Hk. apply Hag.
+  - unfold m_dist_leaf_kwargs in *. rewrite <- Hch. exact Hkwl.
+  - unfold u_dist_items in *. rewrite <- Hd. exact Hk.
+Qed.
+
+Theorem midline_params_preserved : C11_midline_params_preserved_stmt.
+Proof.
+  intros m a kw Hwf Hc Hndi Hret m'. subst m'. cbn [m_call touches_dists] in *.
+  revert Hret. unfold m_set_params. destruct (m_get_params m true) as [ps|]; [|intros C; contradiction].
+  destruct (popat a (Z.of_nat (length ps) - 1)) as [[before last] after].
+  set (r0 := match match kw_get ["midext"; "prob"] kw with Some v => Some v | None => last end with
+             | Some v => option_map (ml_with_midext m) (check_unit v) | None => Some m end).
+  assert (H0 : forall m0, r0 = Some m0 -> m_wf m0 = true /\ m_consistent m0 /\ m_frame m m0 /\ ml_central m0 = ml_central m).
+  { intros m0 E0. unfold r0 in E0. destruct (match kw_get ["midext"; "prob"] kw with Some v => Some v | None => last end) as [v|].
+    - destruct (check_unit v) as [q|]; [|discriminate]. injection E0 as <-.
+      split; [exact Hwf|]. split; [exact Hc|]. split; [split; [reflexivity | apply same_config_refl] | reflexivity].
+    - injection E0 as <-. split; [exact Hwf|]. split; [exact Hc|]. split; [apply m_frame_refl | reflexivity]. }
+  destruct r0 as [m0|]; [|intros C; contradiction]. destruct (H0 m0 eq_refl) as (Hwf0 & Hc0 & Hfr0 & Hcen0). intros Hret.
+  destruct (andthen_ok _ _ Hret) as (a1 & Ha1 & Heq). rewrite Heq in *.
+  assert (HretS : snd (m_set_spread_params m0 (before ++ after) kw) <> None) by (rewrite Ha1; discriminate).
+  assert (Hndi0 : ml_central m0 <> None -> no_double_ipsi kw) by (rewrite Hcen0; exact Hndi).
+  destruct (m_spread_strong m0 _ kw Hwf0 Hc0 Hndi0 HretS) as (Hwf1 & Hsh1 & Hcf1 & Hfr1).
+  set (m1 := fst (m_set_spread_params m0 (before ++ after) kw)) in *.
+  destruct (m_dist_strong m1 a1 kw Hwf1 (conj Hsh1 Hcf1) Hret) as (H1 & H2 & H3).
+  split; [exact H1|]. split; [exact H2|]. intros [C|Hag]; [discriminate|]. apply H3.
+  apply (m_dist_kw_agree_frame m m1 kw (m_frame_trans _ _ _ Hfr0 Hfr1) Hag).
+Qed.
+
+Theorem midline_preserved : C11_midline_preserved_stmt.
+Proof.
+  intros s. destruct s; [apply midline_params_preserved | apply midline_tumor_preserved | apply midline_lnl_preserved
+                        | apply midline_spread_preserved | apply midline_dist_preserved].
+Qed.
+
+(** * Findings and observations: concrete witnesses *)
+Definition C11_g2 : graph :=
+  force_graph (build_graph 2 [ (("tumor", "T"), CList ["II"; "III"]); (("lnl", "II"), CList ["III"]); (("lnl", "III"), CList []) ]).
+Definition C11_u2 : uni := new_uni C11_g2 [("late", Param 0 [("p", qc 1 2)])] 2.
+Definition items_out (l : list (path * Qc)) : list (Z * Z) := map (fun kv => qout (snd kv)) l.
+
+Theorem hpv_sharing_refuted : C11_hpv_sharing_refuted_stmt.
+Proof.
+  exists (new_hpv C11_u2), (vals [qc 1 10; qc 2 10; qc 3 10; qc 4 10; qc 5 10; qc 6 10]), [].
+  split; [vm_compute; reflexivity|]. split; [repeat split|]. split; [vm_compute; reflexivity|].
+  intros H. unfold h_shared in H. apply (f_equal items_out) in H. vm_compute in H. discriminate H.
+Qed.
+
+Theorem child_dist_keyword_refuted : C11_child_dist_keyword_refuted_stmt.
+Proof.
+  exists (new_bilateral C11_u2 true true), [(["contra"; "late"; "p"], V (qc 3 10))].
+  split; [vm_compute; reflexivity|]. split; [repeat split|]. split; [vm_compute; reflexivity|]. split.
+  - intros (_ & H & _). apply (f_equal (fun ds => items_out (dists_items ds))) in H. vm_compute in H. discriminate H.
+  - vm_compute. reflexivity.
+Qed.
+
+Theorem not_atomic : C11_not_atomic_stmt.
+Proof.
+  exists (new_midline C11_u2 true false false false true), (vals [qc 1 10; qc 3 2]).
+  split; [vm_compute; reflexivity|]. split.
+  - apply (fresh_consistent C11_u2). vm_compute. reflexivity.
+  - split; [vm_compute; reflexivity|]. intros (H & _).
+    set (m' := fst (m_set_params (new_midline C11_u2 true false false false true) (vals [qc 1 10; qc 3 2]) [])) in *.
+    specialize (H (noext_i m')). assert (Hin : In (noext_i m') (ipsi_leaves m')) by (cbn; tauto).
+    specialize (H Hin). apply (f_equal items_out) in H. vm_compute in H. discriminate H.
+Qed.
+
+(** * The reported parameters are the ones every leaf holds *)
+Lemma in_pre p (X : list (path * Qc)) k v : In (k, v) (pre p X) <-> exists k', k = p ++ k' /\ In (k', v) X.
+Proof.
+  unfold pre, prefix. rewrite in_map_iff. split.
+  - intros ([k' v'] & E & H). cbn in E. injection E as <- <-. exists k'. tauto.
+  - intros (k' & -> & H). exists (k', v). tauto.
+Qed.
+Lemma item_head_not_side u k v : u_names_ok u = true -> In (k, v) (u_items u) -> ~ SIDE (head_of k).
+Proof.
+  intros Hok Hin. unfold u_items in Hin. rewrite !in_app_iff in Hin.
+  assert (Hk : In k (map fst (u_tumor_items u)) \/ In k (map fst (u_lnl_items u)) \/ In k (map fst (u_dist_items u))).
+  { destruct Hin as [H|[H|H]]; [left | right; left | right; right]; apply in_map_iff; exists (k, v); tauto. }
+  destruct Hk as [H|[H|H]].
+  - destruct (spread_key_form u k (or_introl H)) as (n & s & -> & Hn). cbn. intros Hs. exact (EN_SIDE_disj u Hok n Hn Hs).
+  - destruct (spread_key_form u k (or_intror H)) as (n & s & -> & Hn). cbn. intros Hs. exact (EN_SIDE_disj u Hok n Hn Hs).
+  - destruct (dist_key_form u k H) as (t & s & -> & Ht). cbn. intros Hs. exact (TS_SIDE_disj u Hok t Ht Hs).
+Qed.
+Lemma not_side_branch (k : path) (A B C : Prop) : ~ SIDE (head_of k) -> C ->
+  if str_eqb (head_of k) "ipsi" then A else if str_eqb (head_of k) "contra" then B else C.
+Proof.
+  intros Hs HC. unfold str_eqb. destruct (String.eqb (head_of k) "ipsi") eqn:E1; [apply String.eqb_eq in E1; exfalso; apply Hs; left; exact E1|].
+  destruct (String.eqb (head_of k) "contra") eqn:E2; [apply String.eqb_eq in E2; exfalso; apply Hs; right; exact E2 | exact HC].
+Qed.
+
+Theorem reported_params_are_used : C11_reported_params_are_used_stmt.
+Proof.
+  intros b Hok [[HT HL] (Hm & Hd & Ht)] k v Hin.
+  destruct (b_names_ok_parts b Hok) as (Hi & Hc & _).
+  rewrite (proj1 (bi_names_nodup b Hok)) in Hin.
+  rewrite (proj1 (uni_names_nodup (b_ipsi b) Hi)), (proj1 (uni_names_nodup (b_contra b) Hc)).
+  assert (HD : u_dist_items (b_contra b) = u_dist_items (b_ipsi b)) by (unfold u_dist_items; rewrite Hd; reflexivity).
+  fold (u_T (b_contra b)) (u_T (b_ipsi b)) in HT. fold (u_L (b_contra b)) (u_L (b_ipsi b)) in HL.
+  assert (Both : forall k v, In (k, v) (u_dist_items (b_ipsi b)) -> In (k, v) (u_items (b_ipsi b)) /\ In (k, v) (u_items (b_contra b))).
+  { intros k0 v0 H. unfold u_items. rewrite HD, !in_app_iff. tauto. }
+  unfold b_items in Hin. unfold u_items.
+  destruct (b_symT b) eqn:ET, (b_symL b) eqn:EL; rewrite !in_app_iff in Hin.
+  - (* both symmetric *)
+    assert (HC : In (k, v) (u_items (b_ipsi b)) /\ In (k, v) (u_items (b_contra b))).
+    { unfold u_items. rewrite HD. change (u_tumor_items (b_contra b)) with (u_T (b_contra b)). change (u_lnl_items (b_contra b)) with (u_L (b_contra b)).
+      rewrite (HT eq_refl), (HL eq_refl), !in_app_iff. unfold u_T, u_L. tauto. }
+    apply not_side_branch; [apply (item_head_not_side (b_ipsi b) k v Hi), HC | exact HC].
+  - (* tumour symmetric, LNL per side *)
+    destruct Hin as [H|[H|[H|H]]].
+    + assert (HC : In (k, v) (u_items (b_ipsi b)) /\ In (k, v) (u_items (b_contra b))).
+      { unfold u_items. change (u_tumor_items (b_contra b)) with (u_T (b_contra b)). rewrite (HT eq_refl), !in_app_iff. unfold u_T. tauto. }
+      apply not_side_branch; [apply (item_head_not_side (b_ipsi b) k v Hi), HC | exact HC].
+    + apply in_pre in H. destruct H as (k' & -> & H). cbn. rewrite !in_app_iff. tauto.
+    + apply in_pre in H. destruct H as (k' & -> & H). cbn. rewrite !in_app_iff. tauto.
+    + destruct (Both k v H) as [A B]. apply not_side_branch; [apply (item_head_not_side (b_ipsi b) k v Hi A) | split; assumption].
+  - (* tumour per side, LNL symmetric *)
+    destruct Hin as [H|[H|[H|H]]].
+    + apply in_pre in H. destruct H as (k' & -> & H). cbn. rewrite !in_app_iff. tauto.
+    + apply in_pre in H. destruct H as (k' & -> & H). cbn. rewrite !in_app_iff. tauto.
+    + assert (HC : In (k, v) (u_items (b_ipsi b)) /\ In (k, v) (u_items (b_contra b))).
+      { unfold u_items. change (u_lnl_items (b_contra b)) with (u_L (b_contra b)). rewrite (HL eq_refl), !in_app_iff. unfold u_L. tauto. }
+      apply not_side_branch; [apply (item_head_not_side (b_ipsi b) k v Hi), HC | exact HC].
+    + destruct (Both k v H) as [A B]. apply not_side_branch; [apply (item_head_not_side (b_ipsi b) k v Hi A) | split; assumption].
+  - (* nothing symmetric *)
+    destruct Hin as [H|[H|H]].
+    + apply in_pre in H. destruct H as (k' & -> & H). cbn. rewrite !in_app_iff in *. tauto.
+    + apply in_pre in H. destruct H as (k' & -> & H). cbn. rewrite !in_app_iff in *. tauto.
+    + destruct (Both k v H) as [A B]. apply not_side_branch; [apply (item_head_not_side (b_ipsi b) k v Hi A) | split; assumption].
+Qed.
+
+Lemma reported_last_branch m k v : ~ In (head_of k) ["mixing"; "midext"; "ipsi"; "noext"; "ext"; "contra"] ->
+  holds_L (ipsi_leaves m ++ contra_leaves m) k v \/ (forall u, In u (all_leaves m) -> In (k, v) (u_dist_items u)) ->
+  m_reported_ok m k v.
+Proof.
+  intros Hn H. unfold m_reported_ok, str_eqb. cbv zeta.
+  repeat match goal with |- context [String.eqb (head_of k) ?w] =>
+    let E := fresh "E" in destruct (String.eqb (head_of k) w) eqn:E; [apply String.eqb_eq in E; exfalso; apply Hn; rewrite E; cbn; tauto|] end.
+  exact H.
+Qed.
+
+Theorem midline_reported_params_are_used : C11_midline_reported_params_are_used_stmt.
+Proof.
+  intros m Hwf [Hsh Hcf] _ k v Hin.
+  destruct Hsh as (H1 & H2 & H3 & H4 & H5 & H6).
+  assert (Hei : u_names_ok (ext_i m) = true) by (apply (wf_leaf_names_ok m LExtIpsi _ Hwf); reflexivity).
+  assert (HTi : forall k' v', In (k', v') (u_T (ext_i m)) -> holds_T (ipsi_leaves m ++ opt_leaves (ml_central m) b_contra) k' v').
+  { intros k' v' H u Hu. apply in_app_iff in Hu. destruct Hu as [Hu|Hu]; [rewrite (H1 u Hu); exact H|].
+    destruct (ml_central m) as [c|] eqn:Ec; cbn in Hu; [|destruct Hu]. destruct Hu as [<-|[]]. rewrite (H2 c eq_refl). exact H. }
+  assert (HLi : forall k' v', In (k', v') (u_L (ext_i m)) -> holds_L (ipsi_leaves m) k' v').
+  { intros k' v' H u Hu. rewrite (H4 u Hu). exact H. }
+  assert (HLc : forall k' v', In (k', v') (u_L (ext_c m)) -> holds_L (contra_leaves m) k' v').
+  { intros k' v' H u Hu. rewrite (H5 u Hu). exact H. }
+  assert (HLall : ml_symL m = true -> forall k' v', In (k', v') (u_L (ext_i m)) -> m_reported_ok m k' v').
+  { intros Es k' v' H. apply reported_last_branch.
+    - assert (Hk : In k' (map fst (u_lnl_items (ext_i m)))) by (apply in_map_iff; exists (k', v'); split; [reflexivity | exact H]).
+      destruct (spread_key_form (ext_i m) k' (or_intror Hk)) as (n & s & -> & Hn). cbn [head_of partition_key fst].
+      intros Hr. apply (in_reserved_not_edge (ext_i m) n Hei); [cbn in *; intuition | exact Hn].
+    - left. intros u Hu. apply in_app_iff in Hu. destruct Hu as [Hu|Hu]; [rewrite (H4 u Hu); exact H | rewrite (H5 u Hu), (H6 Es); exact H]. }
+  assert (HD : forall k' v', In (k', v') (u_dist_items (ext_i m)) -> m_reported_ok m k' v').
+  { intros k' v' H. apply reported_last_branch.
+    - assert (Hk : In k' (map fst (u_dist_items (ext_i m)))) by (apply in_map_iff; exists (k', v'); split; [reflexivity | exact H]).
+      destruct (dist_key_form (ext_i m) k' Hk) as (t & s & -> & Ht). cbn [head_of partition_key fst].
+      intros Hr. apply (in_reserved_not_tstage (ext_i m) t Hei); [cbn in *; intuition | exact Ht].
+    - right. intros u Hu. destruct (Hcf u Hu) as (_ & Hd & _). unfold u_dist_items in *. rewrite Hd. exact H. }
+  assert (Hmid : m_reported_ok m ["midext"; "prob"] (ml_midext m)) by reflexivity.
+  unfold c11_mid_items in Hin. cbv zeta in Hin.
+  destruct (ml_mixing m) as [mix|] eqn:Emix, (ml_symL m) eqn:EsL; rewrite !in_app_iff in Hin.
+  - destruct Hin as [H|[H|[H|[H|[H|H]]]]].
+    + apply in_pre in H. destruct H as (k' & -> & H). left. apply HTi, H.
+    + apply in_pre in H. destruct H as (k' & -> & H). left. exact H.
+    + destruct H as [[= <- <-]|[]]. exact Emix.
+    + apply (HLall eq_refl), H.
+    + apply HD, H.
+    + destruct H as [[= <- <-]|[]]. exact Hmid.
+  - destruct Hin as [H|[H|[H|[H|H]]]].
+    + apply in_pre in H. destruct H as (k' & -> & H). apply in_app_iff in H. destruct H as [H|H]; [left; apply HTi, H | right; apply HLi, H].
+    + apply in_pre in H. destruct H as (k' & -> & H). apply in_app_iff in H. destruct H as [H|H]; [left; exact H | right; apply HLc, H].
+    + destruct H as [[= <- <-]|[]]. exact Emix.
+    + apply HD, H.
+    + destruct H as [[= <- <-]|[]]. exact Hmid.
+  - destruct Hin as [H|[H|[H|[H|[H|H]]]]].
+    + apply in_pre in H. destruct H as (k' & -> & H). left. apply HTi, H.
+    + apply in_pre in H. destruct H as (k' & -> & H). exact H.
+    + apply in_pre in H. destruct H as (k' & -> & H). exact H.
+    + apply (HLall eq_refl), H.
+    + apply HD, H.
+    + destruct H as [[= <- <-]|[]]. exact Hmid.
+  - destruct Hin as [H|[H|[H|[H|[H|H]]]]].
+    + apply in_pre in H. destruct H as (k' & -> & H). apply in_app_iff in H. destruct H as [H|H]; [left; apply HTi, H | right; apply HLi, H].
+    + apply in_pre in H. destruct H as (k' & -> & H). exact H.
+    + apply in_pre in H. destruct H as (k' & -> & H). exact H.
+    + apply in_pre in H. destruct H as (k' & -> & H). right. apply HLc, H.
+    + apply HD, H.
+    + destruct H as [[= <- <-]|[]]. exact Hmid.
+Qed.
+
+(** * Well-formedness after a modality / distribution / max_time operation *)
+Lemma graph_same_shape u1 u1' u2 u2' : u_graph u1' = u_graph u1 -> u_graph u2' = u_graph u2 -> same_shape u1' u2' = same_shape u1 u2.
+Proof. intros H1 H2. unfold same_shape, u_edges. rewrite H1, H2. reflexivity. Qed.
+Lemma names_ok_by_graph_dists u u' : u_edge_names u' = u_edge_names u -> u_dists u' = u_dists u -> u_names_ok u' = u_names_ok u.
+Proof. intros H1 H2. unfold u_names_ok, u_tstages. rewrite H1, H2. reflexivity. Qed.
+Lemma bmap_names_ok g b : (forall u, u_graph (g u) = u_graph u) ->
+  u_dists (g (b_contra b)) = u_dists (g (b_ipsi b)) ->
+  u_names_ok (g (b_ipsi b)) = true -> u_names_ok (g (b_contra b)) = true ->
+  b_names_ok b = true -> b_names_ok (bmap g b) = true.
+Proof.
+  intros Hg Hd Hi Hc Hok. unfold b_names_ok in *. unfold bmap, b_with. cbn [b_ipsi b_contra]. rewrite Hi, Hc.
+  rewrite (graph_same_shape _ _ _ _ (Hg (b_ipsi b)) (Hg (b_contra b))).
+  unfold same_dist_keys. rewrite Hd, keys_eqb_refl. rewrite !andb_true_iff in Hok. destruct Hok as [[_ Hs] _]. rewrite Hs. reflexivity.
+Qed.
+
+Theorem cfg_wf : C11_cfg_wf_stmt.
+Proof.
+  intros o. pose proof (leaf_cfg_fun o) as Hf. destruct Hf as [Hg Hd]. split.
+  - intros b Hok [[_ _] Hc] Hret Hni. destruct (b_cfg_spec _ (conj Hg Hd) b Hc) as [_ He]. rewrite (He Hret).
+    set (g := fun u => fst (leaf_cfg o u)). change (b_with b (fst (leaf_cfg o (b_ipsi b))) (fst (leaf_cfg o (b_contra b)))) with (bmap g b).
+    destruct (Hd _ _ Hc) as [(_ & Hdd & _) _].
+    apply bmap_names_ok; [exact Hg | exact Hdd | exact Hni | | exact Hok].
+    unfold g. rewrite (names_ok_by_graph_dists (fst (leaf_cfg o (b_ipsi b))) (fst (leaf_cfg o (b_contra b)))); [exact Hni | | exact Hdd].
+      unfold u_edge_names, u_edges. rewrite !Hg. destruct (b_names_ok_parts b Hok) as (_ & _ & Hs & _). apply shape_names. symmetry. exact Hs.
+  - intros m Hwf [_ Hc] Hret Hall. destruct (m_cfg_spec _ (conj Hg Hd) m Hc) as [_ He]. rewrite (He Hret).
+    set (g := fun u => fst (leaf_cfg o u)) in *.
+    destruct (m_leaf_in_all m) as (I1 & I2 & I3 & I4 & I5 & I6).
+    assert (Hb : forall b, In (b_ipsi b) (all_leaves m) -> In (b_contra b) (all_leaves m) -> b_names_ok b = true -> b_names_ok (bmap g b) = true).
+    { intros b Hi Hcn Hok. apply bmap_names_ok; [exact Hg | | apply Hall, Hi | apply Hall, Hcn | exact Hok].
+      assert (Hsc : same_config (b_contra b) (b_ipsi b)) by (eapply same_config_trans; [apply Hc, Hcn | apply same_config_sym, Hc, Hi]).
+      destruct (Hd _ _ Hsc) as [(_ & Hdd & _) _]. exact Hdd. }
+    destruct (wf_parts m Hwf) as (Hoe & Hon & Hoc).
+    unfold m_wf, m_map. cbn [ml_with_models ml_ext ml_noext ml_central ml_unknown].
+    rewrite (Hb _ I1 I2 Hoe), (Hb _ I3 I4 Hon).
+    assert (Hcen : opt_ok (fun c => b_names_ok c && b_symT c) (option_map (bmap g) (ml_central m)) = true).
+    { destruct (ml_central m) as [c|] eqn:Ec; [|reflexivity]. cbn [option_map opt_ok]. destruct (Hoc c eq_refl) as [A B]. destruct (I5 c eq_refl) as [Ia Ib].
+      rewrite (Hb c Ia Ib A). exact B. }
+    assert (Hunk : opt_ok b_names_ok (option_map (bmap g) (ml_unknown m)) = true).
+    { destruct (ml_unknown m) as [k|] eqn:Ek; [|reflexivity]. cbn [option_map opt_ok]. destruct (I6 k eq_refl) as [Ia Ib]. apply (Hb k Ia Ib).
+      unfold m_wf in Hwf. rewrite Ek in Hwf. rewrite !andb_true_iff in Hwf. apply Hwf. }
+    rewrite Hcen, Hunk. reflexivity.
+Qed.
+
+(** * Recovery: a complete positional assignment *)
+Lemma dist_put_sim maxt d1 d2 new : dist_sim d1 d2 -> 
+  length (dist_local d1) = length (dist_local d2) /\
+  match dist_put maxt d1 new, dist_put maxt d2 new with
+  | Some a, Some b => a = b
+  | None, None => True
+  | _, _ => False
+  end.
+Proof.
+  destruct d1 as [p1|f1 k1], d2 as [p2|f2 k2]; cbn [dist_sim]; try contradiction.
+  - intros ->. split; reflexivity.
+  - intros [-> Hk]. split; [cbn [dist_local]; rewrite !map_length, <- (map_length fst k1), Hk, map_length; reflexivity|].
+    cbn [dist_put]. rewrite Hk. destruct (unwrap new); [|exact I]. destruct (fam_weights f2 maxt _); [reflexivity | exact I].
+Qed.
+Lemma dists_put_sim maxt ds1 : forall ds2 new r1 r2, map fst ds1 = map fst ds2 -> Forall2 dist_sim (map snd ds1) (map snd ds2) ->
+  dists_put maxt ds1 new = Some r1 -> dists_put maxt ds2 new = Some r2 -> r1 = r2.
+Proof.
+  induction ds1 as [|[t1 d1] ds1 IH]; intros [|[t2 d2] ds2] new r1 r2 Hk Hs; cbn [map fst snd] in Hk, Hs; try discriminate.
+  - cbn. intros [= <-] [= <-]. reflexivity.
+  - injection Hk as -> Hk. inversion Hs as [|? ? ? ? Hd Hs']; subst. cbn [dists_put].
+    destruct (dist_put_sim maxt d1 d2 (firstn (length (dist_local d1)) new) Hd) as [Hl Hp]. rewrite <- Hl.
+    destruct (dist_put maxt d1 _) as [a|], (dist_put maxt d2 _) as [b|]; try contradiction; try discriminate. subst b.
+    destruct (dists_put maxt ds1 _) as [x|] eqn:E1; [|discriminate]. destruct (dists_put maxt ds2 _) as [y|] eqn:E2; [|discriminate].
+    intros [= <-] [= <-]. rewrite (IH ds2 _ x y Hk Hs' E1 E2). reflexivity.
+Qed.
+Lemma side_lk_nil side k : side_lk side [] k = None.
+Proof.
+  destruct k as [|n t]; [reflexivity|]. unfold side_lk, eff. cbn.
+  destruct (str_eqb n "ipsi" || (str_eqb n "contra" || false)); destruct (str_eqb (head_of t) "ipsi" || (str_eqb (head_of t) "contra" || false)); reflexivity.
+Qed.
+
+Theorem bilateral_full_assignment_restores : C11_bilateral_full_assignment_restores_stmt.
+Proof.
+  intros b v rest Hok (Hm & Hmt & Hk & Hs) Hlen Hret. split; [apply (b_params_shared b _ [] Hok Hret)|].
+  pose proof (b_set_params_steps b (vals v ++ rest) [] Hok) as Hst. cbv zeta in Hst.
+  destruct (all_unit (side_plan is_tumor_spread (b_symT b) b (vals v ++ rest) [])) as [qsT|]; [|contradiction].
+  destruct (all_unit (side_plan sel_lnl (b_symL b) b _ [])) as [qsL|]; [|contradiction].
+  pose proof (b_items_len b Hok) as Hil. pose proof (b_num_spread_eq b Hok) as Hns. pose proof (b_dist_len b Hok) as Hdl.
+  rewrite <- Hns in Hst.
+  assert (Ha2 : skipn (b_num_spread b) (vals v ++ rest) = vals (skipn (b_num_spread b) v) ++ rest).
+  { unfold vals. rewrite skipn_app, map_length, skipn_map. replace (b_num_spread b - length v) with 0 by lia. reflexivity. }
+  rewrite Ha2 in Hst.
+  assert (Hld : length (skipn (b_num_spread b) v) = length (u_dist_items (b_ipsi b))) by (rewrite skipn_length; lia).
+  unfold vals in Hst.
+  rewrite (plan_no_kw (side_lk "ipsi" []) (u_dist_items (b_ipsi b)) _ rest (fun k _ => side_lk_nil "ipsi" k) Hld) in Hst.
+  rewrite (plan_no_kw (side_lk "contra" []) (u_dist_items (b_contra b)) _ rest (fun k _ => side_lk_nil "contra" k)) in Hst by lia.
+  destruct (dists_put (u_maxt (b_ipsi b)) (u_dists (b_ipsi b)) _) as [dsi|] eqn:Ei; [|contradiction].
+  destruct (dists_put (u_maxt (b_contra b)) (u_dists (b_contra b)) _) as [dsc|] eqn:Ec; [|contradiction].
+  fold (vals v) in Hst. rewrite Hst. cbn [fst]. unfold b_same_config, same_config, b_with. cbn [b_ipsi b_contra u_with_dists u_mods u_dists u_maxt].
+  split; [exact Hm|]. split; [|exact Hmt].
+  rewrite Hmt in Ec. apply (dists_put_sim _ _ _ _ _ _ Hk Hs Ec Ei).
+Qed.
+
+(** * Histories *)
+Lemma is_some_args_true o : is_some_args o = true -> o <> None.
+Proof. destruct o; [discriminate | intros C; discriminate C]. Qed.
+
+Lemma b_step_preserved b c : b_names_ok b = true -> b_consistent b -> b_call_ok b c -> snd (b_step b c) = true ->
+  b_names_ok (fst (b_step b c)) = true /\ b_consistent (fst (b_step b c)).
+Proof.
+  intros Hok Hc Hcall Hret. destruct c as [s a kw|o]; cbn [b_step b_call_ok fst snd] in *.
+  - apply is_some_args_true in Hret. destruct (bilateral_preserved s b a kw Hok Hc Hret) as (H1 & H2 & H3).
+    split; [exact H1|]. split; [exact H2|]. apply H3. destruct (touches_dists s); [right; apply Hcall; reflexivity | left; reflexivity].
+  - split.
+    + apply (proj1 (cfg_wf o) b Hok Hc Hret Hcall).
+    + apply (proj1 (cfg_preserves_all o) b Hc Hret).
+Qed.
+Lemma b_run_preserved cs : forall b, b_names_ok b = true -> b_consistent b -> b_run_ok b cs ->
+  b_names_ok (b_run b cs) = true /\ b_consistent (b_run b cs).
+Proof.
+  induction cs as [|c r IH]; intros b Hok Hc Hrun; [split; assumption|].
+  cbn [b_run_ok b_run] in *. destruct Hrun as (Hcall & Hret & Hr).
+  destruct (b_step_preserved b c Hok Hc Hcall Hret) as [H1 H2]. apply (IH _ H1 H2 Hr).
+Qed.
+Theorem bilateral_history : C11_bilateral_history_stmt.
+Proof.
+  intros u symT symL cs Hu Hrun. destruct (fresh_consistent u Hu) as (Hb & _). destruct (Hb symT symL) as [H1 H2].
+  apply (b_run_preserved cs _ H1 H2 Hrun).
+Qed.
+
+Lemma m_step_preserved m c : m_wf m = true -> m_consistent m -> m_call_ok m c -> snd (m_step m c) = true ->
+  m_wf (fst (m_step m c)) = true /\ m_consistent (fst (m_step m c)).
+Proof.
+  intros Hok Hc Hcall Hret. destruct c as [s a kw|o]; cbn [m_step m_call_ok fst snd] in *.
+  - apply is_some_args_true in Hret. destruct Hcall as [Hag Hndi].
+    destruct (midline_preserved s m a kw Hok Hc Hndi Hret) as (H1 & H2 & H3).
+    split; [exact H1|]. split; [exact H2|]. apply H3. destruct (touches_dists s); [right; apply Hag; reflexivity | left; reflexivity].
+  - split.
+    + apply (proj2 (cfg_wf o) m Hok Hc Hret Hcall).
+    + apply (proj1 (proj2 (cfg_preserves_all o)) m Hc Hret).
+Qed.
+Lemma m_run_preserved cs : forall m, m_wf m = true -> m_consistent m -> m_run_ok m cs ->
+  m_wf (m_run m cs) = true /\ m_consistent (m_run m cs).
+Proof.
+  induction cs as [|c r IH]; intros m Hok Hc Hrun; [split; assumption|].
+  cbn [m_run_ok m_run] in *. destruct Hrun as (Hcall & Hret & Hr).
+  destruct (m_step_preserved m c Hok Hc Hcall Hret) as [H1 H2]. apply (IH _ H1 H2 Hr).
+Qed.
+Theorem midline_history : C11_midline_history_stmt.
+Proof.
+  intros u mix cen evo unk symL cs Hu Hrun. destruct (fresh_consistent u Hu) as (_ & Hm & _).
+  destruct (Hm mix cen evo unk symL) as [H1 H2]. apply (m_run_preserved cs _ H1 H2 Hrun).
 Qed.
